@@ -26,7 +26,7 @@ THRESHOLDS = {"quick": {"c06:adj-configs": 1944, "c06:path-configs": 9072, "c06:
                         "c06:full:SolvedMaze": 400, "c06:pairwise-covering-configs": 300, "c06:pairs-covered-permille": 1000,
                         "c06:isolated-cells": 300, "c06:one-cell-solution": 200, "c06:forks-on-route": 500,
                         **{f"c06:delim:{d}": 100 for d in td.DELIMS}, "c06:relative:LEFT": 100, "c06:relative:RIGHT": 100,
-                        "c06:relative:FORWARD": 100, "c06:relative:BACKWARD": 5, "c06:both-orientations": 300, "c06:walls-subset": 300}}
+                        "c06:relative:FORWARD": 100, "c06:relative:BACKWARD": 5, "c06:both-orientations": 300, "c06:walls-subset": 300, "c06:adj-grid>=12": 100}}
 THRESHOLDS["thorough"] = dict(THRESHOLDS["quick"])
 ANCHORS = ["maze_dataset.tokenization.maze_tokenizer:AdjListTokenizers._AdjListTokenizer.to_tokens",
            "maze_dataset.tokenization.maze_tokenizer:AdjListTokenizers._AdjListTokenizer._tokenize_edge_grouping",
@@ -154,9 +154,12 @@ def run(ctx):
             rng = ctx.sub_rng("adj", ci, ai)
             at = ts.build_adj(p)
             ctx.tally("c06:adj-configs")
-            for (cl, s, e, sol, fam) in mazes_for(rng, int(rng.integers(2, 7)), per_cfg):
+            n_adj = int(rng.integers(2, 7)) if k % 8 else int(rng.integers(12, 17))  # every 8th configuration on a grid with > 127 cells
+            for (cl, s, e, sol, fam) in mazes_for(rng, n_adj, per_cfg if n_adj < 12 else 1):
                 g = Graph(cl)
-                case = dict(region="adj", params=p, cl=cl, family=fam)
+                case = dict(region="adj", params=p, cl=cl if n_adj < 12 else None, n=n_adj, family=fam)
+                if n_adj >= 12:
+                    ctx.tally("c06:adj-grid>=12")
                 mech = "C06/adj"
                 try:
                     toks = at.to_tokens(lib.lattice(cl), ct)
@@ -222,7 +225,7 @@ def run(ctx):
     n_rand = 300 if ctx.quick else 6000
     rr = np.random.Generator(np.random.PCG64(ctx.seed + 777))
     cfgs = cfgs + [ts.random_params(rr) for _ in range(n_rand)]
-    sizes = [2, 3, 5, 8, 11] if ctx.quick else [2, 3, 4, 5, 8, 11, 12, 20]
+    sizes = [2, 3, 5, 8, 13] if ctx.quick else [2, 3, 4, 5, 8, 11, 13, 16, 20, 30]
     for j, p in enumerate(cfgs):
         if not ctx.mine(j):
             continue
